@@ -340,6 +340,12 @@ pub fn scenarios(tier: &str) -> Vec<Scenario> {
             Step::Fin,
         ]),
     ];
+    // the refused calls get a scenario of their own (a smaller alphabet around them) so that the main one keeps
+    // its depth within the quick budget
+    let refused: Vec<Macro> = alpha.iter().filter(|m| m.kind == Kind::Dev(2)).cloned().collect();
+    let mut refused_alpha: Vec<Macro> = alpha.iter().filter(|m| ["B(dep p1 ORDI 3)", "B(wd p1 OrDi 2)", "B(p1 tok.transfer p2 1, p1 tok.transfer signer 1, p1 tok.transfer p2 99)", "R-1", "C"].contains(&m.name.as_str())).cloned().collect();
+    refused_alpha.extend(refused);
+    let alpha: Vec<Macro> = alpha.into_iter().filter(|m| m.kind != Kind::Dev(2)).collect();
     // start: initialised, token "ordi" created by a first deposit (so that its address is fixed)
     let mut base = vec![Step::Init];
     base.extend(block(vec![dep(1, "ordi", "0x4")]));
@@ -364,6 +370,16 @@ pub fn scenarios(tier: &str) -> Vec<Scenario> {
             alphabet: alpha,
             bounds: Bounds { depth: if thorough { 5 } else { 4 }, dev: vec![1, 1, 1], dev_total: 2 },
             weight: 4.0,
+            network: "regtest".into(),
+            traces: false,
+        },
+        Scenario {
+            name: "ledger-refused-calls".into(),
+            opts: opts.clone(),
+            starts: vec![("initialised, 4 ordi deposited to p1".into(), base.clone())],
+            alphabet: refused_alpha,
+            bounds: Bounds { depth: if thorough { 4 } else { 3 }, dev: vec![1, 1, 2], dev_total: 3 },
+            weight: 1.0,
             network: "regtest".into(),
             traces: false,
         },
